@@ -217,7 +217,12 @@ func marshalDocSections(secs []DocumentSection) []byte {
 
 func unmarshalDocSections(data []byte, ds []DocumentSection) []DocumentSection {
 	sz, m := binary.Uvarint(data)
+	if m <= 0 {
+		// Truncated or overflowing size prefix (corrupt data): nothing to decode.
+		return ds[:0]
+	}
 	data = data[m:]
+	sz = clampDeltaCount(sz, data)
 
 	if cap(ds) < int(sz)/2 {
 		ds = make([]DocumentSection, 0, sz/2)
@@ -232,11 +237,17 @@ func unmarshalDocSections(data []byte, ds []DocumentSection) []DocumentSection {
 		var d DocumentSection
 
 		delta, m := binary.Uvarint(data)
+		if m <= 0 {
+			break // corrupt data, see fromSizedDeltas
+		}
 		last += uint32(delta)
 		data = data[m:]
 		d.Start = last
 
 		delta, m = binary.Uvarint(data)
+		if m <= 0 {
+			break
+		}
 		last += uint32(delta)
 		data = data[m:]
 		d.End = last
@@ -244,6 +255,17 @@ func unmarshalDocSections(data []byte, ds []DocumentSection) []DocumentSection {
 		ds = append(ds, d)
 	}
 	return ds
+}
+
+// clampDeltaCount bounds the element count claimed by the size prefix of a
+// delta encoded list by what data can hold (every element takes at least one
+// byte), so that corrupt data cannot make us allocate an arbitrary amount of
+// memory.
+func clampDeltaCount(sz uint64, data []byte) uint64 {
+	if sz > uint64(len(data)) {
+		return uint64(len(data))
+	}
+	return sz
 }
 
 type ngramSlice []ngram
@@ -279,7 +301,12 @@ func toSizedDeltas(offsets []uint32) []byte {
 
 func fromSizedDeltas(data []byte, ps []uint32) []uint32 {
 	sz, m := binary.Uvarint(data)
+	if m <= 0 {
+		// Truncated or overflowing size prefix (corrupt data): nothing to decode.
+		return ps[:0]
+	}
 	data = data[m:]
+	sz = clampDeltaCount(sz, data)
 
 	if cap(ps) < int(sz) {
 		ps = make([]uint32, 0, sz)
@@ -290,6 +317,12 @@ func fromSizedDeltas(data []byte, ps []uint32) []uint32 {
 	var last uint32
 	for len(data) > 0 {
 		delta, m := binary.Uvarint(data)
+		if m <= 0 {
+			// binary.Uvarint makes no progress on a truncated varint (m == 0) and
+			// reports an overflowing one with m < 0. Both only occur in corrupt
+			// data; stop instead of spinning or slicing with a negative index.
+			break
+		}
 		offset := last + uint32(delta)
 		last = offset
 		data = data[m:]
@@ -319,7 +352,12 @@ func toSizedDeltas16(offsets []uint16) []byte {
 
 func fromSizedDeltas16(data []byte, ps []uint16) []uint16 {
 	sz, m := binary.Uvarint(data)
+	if m <= 0 {
+		// Truncated or overflowing size prefix (corrupt data): nothing to decode.
+		return ps[:0]
+	}
 	data = data[m:]
+	sz = clampDeltaCount(sz, data)
 
 	if cap(ps) < int(sz) {
 		ps = make([]uint16, 0, sz)
@@ -330,6 +368,9 @@ func fromSizedDeltas16(data []byte, ps []uint16) []uint16 {
 	var last uint16
 	for len(data) > 0 {
 		delta, m := binary.Uvarint(data)
+		if m <= 0 {
+			break
+		}
 		offset := last + uint16(delta)
 		last = offset
 		data = data[m:]
@@ -347,6 +388,9 @@ func fromDeltas(data []byte, buf []uint32) []uint32 {
 	var last uint32
 	for len(data) > 0 {
 		delta, m := binary.Uvarint(data)
+		if m <= 0 {
+			break // corrupt data, see fromSizedDeltas
+		}
 		offset := last + uint32(delta)
 		last = offset
 		data = data[m:]
